@@ -658,3 +658,12 @@ def replay_c22(task, failure):
     except Exception as e:
         out.append(f"raised {type(e).__name__}: {e}")
     return {"reproduced": bool(out), "text": f"{a}: " + ("; ".join(out) or "query agrees with the member set")}
+
+
+def replay_finding22(f):
+    w = dict(f["witness"])
+    kw = {"w": w.pop("w")}
+    for k in ("op", "q", "smart"):
+        if k in w:
+            kw[k] = w.pop(k)
+    return replay_c22({"kwargs": kw}, {"witness": w})
